@@ -30,6 +30,10 @@ class Outcome:
         return "ok" if self.ok else f"exc:{self.exc_type}"
 
 
+class RunTimeout(BaseException):
+    """Wall cap of one simulated run (raised from SIGALRM); never an outcome of the system under test."""
+
+
 class InjectedFault(Exception):
     """Raised by the simulated scheduler for an injected permanent task failure."""
 
@@ -40,7 +44,7 @@ def capture(fn, *a, **k) -> Outcome:
             warnings.simplefilter("ignore")
             v = fn(*a, **k)
         return Outcome(True, v)
-    except (KeyboardInterrupt, SystemExit):
+    except (KeyboardInterrupt, SystemExit, RunTimeout):
         raise
     except MemoryError as e:
         if "injected" not in str(e):
